@@ -287,6 +287,7 @@ def group_spec(g, tier):
             ops += [op_set(o, C0), op_set(o, C1)]
             ops += [op_solve(o, h, i) for h in (1, 2) for i in ("a66", "b49")]
             ops += [op_solve(o, 1, "a66f")]  # same shape, other dtype
+            ops += [op_solve(o, None, "a66")]  # call without a grid spacing (library default)
         return objs, ops, "snap"
     if g == "mg":
         objs = ["M0", "M1"]
